@@ -17,6 +17,9 @@ MAP = {"1": ["C09", "C10", "C11", "C07"], "2": ["C11", "C10", "C07"], "3": ["C08
        "43": ["C03", "C02"], "44": ["C03", "C02"], "45": ["C06", "C01"], "46": ["C16", "C17"], "47": ["C17", "C01", "C03"], "48": ["C03", "C04"], "49": ["C19"], "50": ["C05"],
        "51": ["C03", "C01", "C05"], "52": ["C16", "C03"], "53": ["C20"], "54": ["C20", "C15", "C01"], "55": ["C05"], "56": ["C19"], "57": ["C19"], "58": ["C05", "C03"],
        "59": ["C16", "C17", "C01"], "60": ["C09", "C07"], "61": ["C04", "C03", "C02"], "62": ["C16", "C17"], "63": ["C08", "C05", "C02"], "64": ["C15", "C17"],
+       # batch 5 (functions put under contract in session 2)
+       "65": ["C05", "C01"], "66": ["C05"], "67": ["C05", "C01"], "68": ["C02", "C05", "C15"], "69": ["C02", "C01"], "70": ["C05", "C06", "C01"], "71": ["C01", "C04"],
+       "72": ["C16", "C17"], "73": ["C20", "C17"], "74": ["C16", "C17"], "75": ["C19"], "76": ["C19"], "77": ["C03", "C19"], "78": ["C08", "C05"], "79": ["C15", "C17"], "80": ["C11", "C10"],
        "35": ["C11", "C09"], "36": ["C11", "C07"], "37": ["C08"], "38": ["C08", "C04"], "39": ["C15", "C17"], "40": ["C15", "C01"], "41": ["C20", "C01"], "42": ["C20", "C15"]}
 if len(sys.argv) > 1:
     MAP = {k: v for k, v in MAP.items() if k in sys.argv[1:]}
